@@ -298,11 +298,11 @@ func init() {
 			if u == 0 {
 				for i, pc := range c15KeptPrograms() {
 					pc, i := pc, i
-					c.Do(func() any { return c15Spec{Family: "kept", Place: i} }, func() *fw.Violation { v, _, _ := pc.check(c); return v })
+					c.Do(func() any { return c15Spec{Family: "kept", Place: i} }, func() *fw.Violation { return pc.mustCheck(c, "arrays kept across documents") })
 				}
 				for i, pc := range c15SortPrograms() {
 					pc, i := pc, i
-					c.Do(func() any { return c15Spec{Family: "sortlong", Place: i} }, func() *fw.Violation { v, _, _ := pc.check(c); return v })
+					c.Do(func() any { return c15Spec{Family: "sortlong", Place: i} }, func() *fw.Violation { return pc.mustCheck(c, "stable sort") })
 				}
 			}
 			un := c15Units(c.Tier)[u]
